@@ -5,6 +5,7 @@ import UvModel.Async
 input:  `cfg nh=<n> close=<h,..|-> senders=<h,h;h|-> sig=<t:victim,..|->`   victim = `l` or a sender index
         `run`            back to the initial state of the configuration
         `at <d>`         back to the state after d actions of the current run (stateless DFS backtracking)
+        (cfg also: nocb=<h,..|-> handles without a callback; eintr= fork= stop= spin= cap=)
         `a <tok>`        tok = s<t> (sender t: begin its next send, or next atomic op) | l | c<h> | f
 output: one line per input line: `a <tok> :: <effect> :: <state>`  -/
 namespace Drivers.C09
@@ -13,6 +14,7 @@ open UvModel.DriverUtil UvModel.Async
 structure Cfg where
   nh : Nat := 0
   closable : List Nat := []
+  nocb : List Nat := []   -- handles initialised with async_cb == NULL: their callback is the empty one (scan and return fused)
   progs : List (List Nat) := []
   sig : List (Nat × Option Nat) := []   -- (handler sender, victim: none = loop thread)
   spin : Nat := 0       -- once per run the closing loop thread takes this many uv__async_spin iterations in a row
@@ -50,6 +52,7 @@ def parseCfg (ws : List String) : Cfg :=
     match w.splitOn "=" with
     | ["nh", v] => { c with nh := nat! v }
     | ["close", v] => { c with closable := natList v }
+    | ["nocb", v] => { c with nocb := natList v }
     | ["senders", v] => { c with progs := if v = "-" then [] else (v.splitOn ";").map natList }
     | ["eintr", v] => { c with eintr := nat! v }
     | ["fork", v] => { c with forks := nat! v }
@@ -120,11 +123,14 @@ def applyTok (c : Cfg) (d : DS) (tok : String) : Option (DS × String) :=
     let eff := match s.lpc with
       | .idle => "wake"
       | .drain => "drain"
-      | .scan h => if (s.hs h).pending = 0 then s!"scan h{h} =0" else s!"scan h{h} =1 cb"
+      | .scan h => if (s.hs h).pending = 0 then s!"scan h{h} =0" else if c.nocb.contains h then s!"scan h{h} =1" else s!"scan h{h} =1 cb"
       | .inCb h => s!"cbret h{h}"
       | .closeStore h _ => s!"store h{h}"
       | .closeSpin h _ => s!"spin h{h} unlink"
-    (step? s .loop).map fun s' => ({ d with s := s', sf := if s'.lpc = .idle then false else d.sf }, eff)
+    -- async.c:205-206: no callback to call for a handle initialised with NULL — the model's (empty) callback returns at once
+    let fused := match s.lpc with | .scan h => (s.hs h).pending ≠ 0 && c.nocb.contains h | _ => false
+    ((step? s .loop).bind fun s1 => if fused then step? s1 .loop else some s1).map fun s' =>
+      ({ d with s := s', sf := if s'.lpc = .idle then false else d.sf }, eff)
   else if tok = "p" then   -- N spin iterations with busy ≠ 0: the model's closeSpin step is disabled, nothing changes
     some ({ d with sp := d.sp - 1 }, "spinburst")
   else if tok = "x" then
